@@ -117,7 +117,7 @@ def jobs():
             return dict(iargs=[s, n], rargs=[s, n])
         J.append(Job(f"tee[n={n},no lock]", ("itertools", "tee"), None, mk, kind="protocol", props=("C09", "C04", "C01", "C20"), closes=False, release=False,
                      faults=True, thorough=thorough, max_paths=30000,
-                     opts={"protocol": TeeProtocol(n), "state_invariant": tee_invariant, "ghost_tee": True, "fault_kinds": ("raise",), "declared_only": True, "widen_lists": True, "accumulates": "tee buffers hold the lead hist[y_p:] (invariant)", "fresh_solver": True,
+                     opts={"protocol": TeeProtocol(n), "state_invariant": tee_invariant, "ghost_tee": True, "fault_kinds": ("raise",), "declared_only": True, "widen_lists": True, "lock_contract": True, "accumulates": "tee buffers hold the lead hist[y_p:] (invariant)", "fresh_solver": True,
                            "under_contract": [("itertools", "tee"), ("itertools", "tee_peer"), ("itertools", "_TeePeer"), ("itertools", "NoLock")]}))
     return J
 
@@ -128,6 +128,12 @@ def tee_interfere(verifier, ctx, ev):
     H = verifier.impl_i.roots
     if "ghost" not in H:
         return
+    only = verifier.job.opts.get("interfere_only")
+    if only is not None:
+        what = ("enter" if ev.payload[1] == "enter" else "exit") if ev.kind == "CM" else "pull"
+        if what not in only:
+            return
+    simple = bool(verifier.job.opts.get("interfere_simple"))
     g = H["ghost"]
     frames = [fr for fr in verifier.impl_i.frames if fr.name == "tee_peer"]
     if not frames:
@@ -158,7 +164,7 @@ def tee_interfere(verifier, ctx, ev):
                 buf.widen()
                 buf.seq = z3.Concat(buf.seq, extra)
             continue
-        if ctx.choose(2, f"interference: child {q} closed meanwhile") == 1:
+        if not simple and ctx.choose(2, f"interference: child {q} closed meanwhile") == 1:
             for idx, b in enumerate(peers):
                 if b is buf:
                     peers.pop(idx)
@@ -192,8 +198,25 @@ def _lock_jobs():
         return dict(iargs=[s, n], rargs=[s, n], ikw={"lock": lock}, rkw={"lock": lock})
     out.append(Job(f"tee[n={n},lock]", ("itertools", "tee"), None, mk, kind="protocol", props=("C09", "C18", "C04", "C20"), closes=False, release=False,
                    faults=True, max_paths=30000,
-                   opts={"protocol": TeeProtocol(n), "state_invariant": tee_lock_invariant, "ghost_tee": True, "fault_kinds": ("raise", "cancel"), "declared_only": True, "widen_lists": True, "accumulates": "tee buffers hold the lead hist[y_p:] (invariant)", "thorough_only": True,
-                         "fresh_solver": True, "at_suspension": tee_interfere, "suspend_at_pull": True,
+                   opts={"protocol": TeeProtocol(n), "state_invariant": tee_lock_invariant, "ghost_tee": True, "fault_kinds": ("raise", "cancel"), "declared_only": True, "widen_lists": True, "lock_contract": True, "accumulates": "tee buffers hold the lead hist[y_p:] (invariant)", "thorough_only": True,
+                         "fresh_solver": True, "at_suspension": tee_interfere, "suspend_at_pull": True, "budget_s": 1200,
+                         "under_contract": [("itertools", "tee"), ("itertools", "tee_peer"), ("itertools", "_TeePeer")]}))
+    # interference only while WAITING for the lock (other children fetch and yield meanwhile): the case the re-check
+    # after acquiring the lock exists for; the source itself does not suspend in this job
+    out.append(Job(f"tee[n={n},lock,interference while waiting for the lock]", ("itertools", "tee"), None, mk, kind="protocol", props=("C09", "C18", "C04", "C20"),
+                   closes=False, release=False, faults=False, max_paths=30000,
+                   opts={"protocol": TeeProtocol(n), "state_invariant": tee_lock_invariant, "ghost_tee": True,
+                         "declared_only": True, "widen_lists": True, "fresh_solver": True, "lock_contract": True,
+                         "at_suspension": tee_interfere, "interfere_only": ("enter",), "interfere_simple": True, "thorough_only": True, "budget_s": 1200,
+                         "accumulates": "tee buffers hold the lead hist[y_p:] (invariant)",
+                         "under_contract": [("itertools", "tee"), ("itertools", "tee_peer"), ("itertools", "_TeePeer")]}))
+    # the same with a user lock but without interference inside the lock/source (children interleave at their yields
+    # only): cheap, and enough for `the lock is never held across a yield` and for lock release on faults
+    out.append(Job(f"tee[n={n},lock,interleaving at yields]", ("itertools", "tee"), None, mk, kind="protocol", props=("C09", "C18", "C04", "C20"),
+                   closes=False, release=False, faults=True, max_paths=30000,
+                   opts={"protocol": TeeProtocol(n), "state_invariant": tee_lock_invariant, "ghost_tee": True, "fault_kinds": ("raise", "cancel"),
+                         "declared_only": True, "widen_lists": True, "lock_contract": True, "fresh_solver": True,
+                         "accumulates": "tee buffers hold the lead hist[y_p:] (invariant)",
                          "under_contract": [("itertools", "tee"), ("itertools", "tee_peer"), ("itertools", "_TeePeer")]}))
     return out
 
